@@ -500,6 +500,7 @@ def run(scen):
                 rec.index = idx
                 rec.conn = w.conn_index
                 rec.wire_len = len(w.socks[-1].out_bytes) if w.socks else 0
+                rec.open_socks = sum(1 for s_ in w.socks if not s_.closed)
                 trace.events.append(rec)
                 idx += 1
                 if idx > scen.get('max_events', 2000):
@@ -515,8 +516,15 @@ def run(scen):
                         sched.start_thread(th)
                     sched.yield_point('spawn')
                 elif started[0]:
-                    app.react(rec)
-            trace.finished = True
+                    r = app.react(rec)
+                    if r is not None and r[0] == 'abandon':
+                        trace.abandoned = (rec.index, r[1], rec.name)
+                        if r[1] == 'close':
+                            gen.close()
+                        break
+            else:
+                trace.finished = True
+            gen = None
         except W.SimHang as e:
             trace.hang = str(e)
         except W.SimAbort:
@@ -542,6 +550,9 @@ def run(scen):
         trace.hang = trace.hang or str(sched.error)
         sched.error = None
     trace.tcalls = tcalls
+    if trace.abandoned is not None:
+        loop.target = None
+        netsim.observe_release(trace)
     # Line-trace functions stay referenced from frames of lomond's generators
     # (f_trace) beyond what the collector can see; cut every link from the
     # scheduler to the world, the threads and their closures so that a
